@@ -100,6 +100,7 @@ func main() {
 	sweep := flag.String("sweep", "", "regexp: functions without a contract that get a synthesized `nopanic` contract")
 	sweepN := flag.Int("sweep-n", 0, "sample size for -sweep (0 = all)")
 	seed := flag.Int64("seed", 0, "seed for sampling")
+	list := flag.String("list", "", "regexp: list matching functions (and function literals) with their source positions, then exit")
 	flag.Parse()
 	t0 := time.Now()
 	ov := map[string][]byte{}
@@ -131,6 +132,22 @@ func main() {
 			rep.Assumes = append(rep.Assumes, sf.Assumes...)
 		}
 		fns := p.sortedContracts()
+		if *list != "" {
+			// -list re: names and positions of the functions (closures included) whose name matches: how a
+			// contract author finds go/ssa's numbering of function literals
+			lre := regexp.MustCompile(*list)
+			var names []string
+			for _, fn := range p.byKey {
+				if lre.MatchString(qualName(fn)) {
+					names = append(names, fmt.Sprintf("%s\t%s", qualName(fn), fn.Prog.Fset.Position(fn.Pos())))
+				}
+			}
+			sort.Strings(names)
+			for _, n := range names {
+				fmt.Println(n)
+			}
+			continue
+		}
 		if *sweep != "" {
 			// zero-annotation sweep: every matching function without a contract gets `nopanic` only
 			sre := regexp.MustCompile(*sweep)
